@@ -36,10 +36,17 @@ type Action struct {
 	// Sync (fatal fired from inside a component callback): report on the calling goroutine (the run
 	// loop's own) instead of a helper goroutine
 	Sync bool `json:"sync,omitempty"`
+	// Seq (kind wseq, fired from inside a component callback while the run loop is busy starting or
+	// reloading): watcher notifications ("change" / "error") delivered back to back by a harness goroutine;
+	// the resolver's channel has one slot, so the second send waits until the loop has drained the first
+	Seq []string `json:"seq,omitempty"`
 }
 
 func (a Action) String() string {
 	s := a.Kind
+	if a.Kind == "wseq" {
+		return "wseq(" + strings.Join(a.Seq, ",") + ")"
+	}
 	if a.N > 1 {
 		s += fmt.Sprintf("x%d", a.N)
 	}
@@ -290,6 +297,21 @@ func (p *prov) fire(err error, onLoopGoroutine bool) bool {
 	p.outstanding = true
 	p.w(&confmap.ChangeEvent{Error: err}) // capacity-1 channel, known empty: does not block
 	return true
+}
+
+// seqStart hands out the watcher function for a back-to-back sequence of notifications. Allowed only while
+// the provider is in use (not shut down), no stop event has been issued and — by construction of the
+// histories that use it — the resolver's channel is empty (the notification that caused the current reload
+// has been consumed, nothing else was fired).
+func (p *prov) seqStart() confmap.WatcherFunc {
+	p.mu.Lock()
+	defer p.mu.Unlock()
+	if p.w == nil || p.shutdowns > 0 || p.r.stopIssued.Load() {
+		return nil
+	}
+	p.notified = true
+	p.outstanding = true
+	return p.w
 }
 
 func (p *prov) sawIdle() {
